@@ -16,7 +16,7 @@ FUNCTIONS = ['emd.logger.wrap_verbose', 'emd.logger.set_up', 'emd.logger.set_lev
              'emd.logger.enable', 'emd.logger.sift_logger', 'emd.sift.sift / mask_sift (decorated entry points)']
 BOUNDS = {
     'quick': 'every history of <= 3 operations from {set_up(level or default), set_level(level), disable, enable, decorated call returning, decorated call '
-             'raising} x levels {CRITICAL, WARNING, INFO, DEBUG} x verbose in {None, 4 levels}, from the never-set-up and from the set-up state '
+             'raising} x levels {CRITICAL, WARNING, INFO, DEBUG, NOTSET} x verbose in {None, 5 levels}, from the never-set-up and from the set-up state '
              '(operation codes and parameters are solver integers, enumerated exhaustively by the solver-driven fork tree); inductive step: '
              'arbitrary console level and disabled flag, one decorated call; result independence: all four decorated variants (sift N=6, mask_sift N=5, ensemble_sift N=5 and complete_ensemble_sift N=5 with one member, cap 1 and a seeded noise stream, non-default imf_opts) under 5 logger states',
     'thorough': 'histories of <= 4 operations; result independence for sift and mask_sift',
@@ -29,7 +29,7 @@ EXPECTED_LABELS = ['no-unexpected-exception', 'console-level-matches-model', 'ov
 BUDGET_S = {'quick': 120, 'thorough': 900}
 OPTS = {'quick': {'sample_every': 101, 'concolic': False}, 'thorough': {'sample_every': 1009, 'concolic': False}}
 
-LEVELS = ['CRITICAL', 'WARNING', 'INFO', 'DEBUG']
+LEVELS = ['CRITICAL', 'WARNING', 'INFO', 'DEBUG', 'NOTSET']
 VERBOSE = [None] + LEVELS
 
 
@@ -107,14 +107,14 @@ def history(h):
     trace = []
     for k in range(depth):
         op = int(h.int('op%d' % k, 0, 5))
-        par = h.int('par%d' % k, 0, 4)
+        par = h.int('par%d' % k, 0, 5)
         if op in (2, 3):
             h.assume(par == 0)
         elif op == 1:
-            h.assume(par <= 3)
+            h.assume(par <= 4)
         par = int(par)
         try:
-            if op == 0 and par == 4:
+            if op == 0 and par == 5:
                 L.set_up()                      # no level given: the documented default console level (INFO)
                 model = logging.INFO
                 trace.append('set_up()')
@@ -163,9 +163,9 @@ def history(h):
 
 def inductive(h):
     """one decorated call from an arbitrary valid state: the console level afterwards is the level before"""
-    lvl = int(h.int('level', 0, 3))
+    lvl = int(h.int('level', 0, 4))
     dis = bool(h.bool('disabled'))
-    vb = int(h.int('verbose', 0, 4))
+    vb = int(h.int('verbose', 0, 5))
     fail = bool(h.bool('raises'))
     L.set_up(level=LEVELS[lvl])
     if dis:
